@@ -32,11 +32,19 @@ impl<'a> Bpb<'a> {
 
         let root_dir_blocks =
             BlockCount::from_bytes(u32::from(bpb.root_entries_count()) * OnDiskDirEntry::LEN_U32).0;
-        let non_data_blocks = u32::from(bpb.reserved_block_count())
-            + (u32::from(bpb.num_fats()) * bpb.fat_size())
-            + root_dir_blocks;
-        let data_blocks = bpb.total_blocks() - non_data_blocks;
-        bpb.cluster_count = data_blocks / u32::from(bpb.blocks_per_cluster());
+        // None of these fields can be trusted, so no unchecked arithmetic
+        let non_data_blocks = u32::from(bpb.num_fats())
+            .checked_mul(bpb.fat_size())
+            .and_then(|n| n.checked_add(u32::from(bpb.reserved_block_count())))
+            .and_then(|n| n.checked_add(root_dir_blocks))
+            .ok_or("BPB layout too large")?;
+        let data_blocks = bpb
+            .total_blocks()
+            .checked_sub(non_data_blocks)
+            .ok_or("BPB total blocks too small")?;
+        bpb.cluster_count = data_blocks
+            .checked_div(u32::from(bpb.blocks_per_cluster()))
+            .ok_or("BPB blocks per cluster is zero")?;
         if bpb.cluster_count < 4085 {
             return Err("FAT12 is unsupported");
         } else if bpb.cluster_count < 65525 {
